@@ -212,6 +212,7 @@ func checkC16(c *Ctx, r *Report) {
 	}
 
 	// R3: blacklist before dialling; R6: handshake goroutines only after a successful reservation
+	defer rulesBlacklistWrites(c, r)
 	r3 := r.Rule("R3", "E-GUARD", "in the announce-result event AddPending is reached only on the not-blacklisted side; handshake goroutines are started only in the success region of AddPending; failed handshakes release the reservation", 4)
 	for _, cs := range c.CallsTo("(*" + pkgConnstate + ".State).AddPending") {
 		fn := cs.Caller
